@@ -48,3 +48,19 @@ package x509
 //@   (ensures both (= (isnil result.0) (not (isnil result.1)))))
 //@ (func ReadPrivateKeyFromHex sweep
 //@   (ensures both (= (isnil result.0) (not (isnil result.1)))))
+
+// Signing-input convention of the issuing functions: an SM2 signer is handed the to-be-signed bytes themselves (it
+// hashes ZA || message internally), every other signer the digest.  Stated through the ghost state of the crypto.Signer
+// contract: which buffer the (single) Sign call received.
+//@ (func CreateCertificate sweep split-returns
+//@   (requires args (and (not (isnil template)) (not (isnil parent)) (not (isnil signer))))
+//@   (ghost-havoc sign.obj sign.len sign.calls)
+//@   (ensures-internal convention (=> (isnil result.1) (= isSM2 (= (ghost sign.obj) (obj tbsCertContents))))))
+//@ (func CreateRevocationList sweep split-returns
+//@   (requires args (and (not (isnil template)) (not (isnil issuer)) (not (isnil priv))))
+//@   (ghost-havoc sign.obj sign.len sign.calls)
+//@   (ensures-internal convention (=> (isnil result.1) (= isSM2 (= (ghost sign.obj) (obj tbsCertListContents))))))
+//@ (func "(*Certificate).CreateCRL" sweep split-returns
+//@   (requires args (not (isnil c)))
+//@   (ghost-havoc sign.obj sign.len sign.calls)
+//@   (ensures-internal convention (=> (isnil err) (= (= hashFunc 16) (= (ghost sign.obj) (obj tbsCertListContents))))))
